@@ -17,12 +17,12 @@ META = {
                  "evaluated against the identifiers found in compiled ASTs; runtime oracle on generated names in every "
                  "construct",
     "level_text": "Theorems C34_sites_emit_mangle_partial / C34_same_binding_iff_mangle_eq / C34_local_macro_same_iff / "
-                  "C34_require_alias / C34_let_reaches_iff (coq/Props/C34.v): at each of the 30 regenerated call sites "
+                  "C34_require_alias / C34_let_reaches_iff (coq/Props/C34.v): at each of the 31 regenerated call sites "
                   "(variable, attribute, method, parameter, keyword argument, defn/defclass name, import names and "
                   "aliases, macro install/lookup, (:s obj), global/nonlocal, match captures, except name, setv renaming, "
                   "let, local macros, require, deftype/type parameters) the identifier is mangle(name) for every mangle "
-                  "function and every name; the class-pattern keyword site is decided by computation "
-                  "(C34_class_kwd_status) and is a recorded finding. The run compares the table with the identifiers in "
+                  "function and every name; the class-pattern keyword site (fixed by 7ce654c) is among them; "
+                  "C34_class_kwd_status decides it by computation. The run compares the table with the identifiers in "
                   "compiled ASTs and checks globals/attribute/kwarg/parameter/macro names and same-binding behaviour at "
                   "run time for generated names (punctuation, Unicode, hyphens/underscores, Python keywords).",
     "level_note": "Partial: the theorems are about the expression found at each call site (tie: translator/names_sites.py, "
@@ -670,6 +670,22 @@ def run_pairs(chk, env, names, per_name):
         sys.modules.pop("zq_macmod", None)
 
 
+def corpus_first(chk, env):
+    """minimised past failures (corpus/C34/cases.json): program text and the globals it must produce"""
+    import json
+    import os
+    path = os.path.join(vlib.VERIF, "corpus", "C34", "cases.json")
+    if not os.path.exists(path):
+        return
+    for c in json.load(open(path)):
+        mod, tree, err, msg = env.run(c["source"])
+        chk.count("corpus")
+        chk.case(("corpus", c["source"]), nontrivial=True)
+        got = {k: mod.__dict__.get(k, "<unbound>") for k in c["expect"]}
+        if err or got != c["expect"]:
+            chk.fail("corpus-regression", {"program": c["source"], "note": c["note"]}, err or got, c["expect"], how(c["source"]))
+
+
 def run(chk):
     chk.trusted = TRUSTED
     chk.assumptions = [
@@ -699,7 +715,8 @@ def run(chk):
             coq_correspondence(chk, table)
         except Exception as e:
             chk.obligation("Coq neval evaluates on the generated table", False, str(e)[-1500:])
-    names = gen_names(chk, hy, 1500 if thorough else 150)
+    corpus_first(chk, env)
+    names = gen_names(chk, hy, 1500 if thorough else 110)
     for k, _ in names:
         chk.count("namekind:" + k)
     chk.rule = ("names = fixed list of hyphen/underscore/punctuation/Unicode/keyword names + seeded random names of 6 kinds, "
@@ -709,8 +726,25 @@ def run(chk):
                 "differs from the name (constructs), partner differs from the name or has another mangling (pairs)"
                 % (len(CONSTRUCTS), len(PAIRS)))
     if table:
-        sub = names if thorough else names[:110]
+        sub = names if thorough else names[:90]
         table_vs_ast(chk, env, table, sub)
     run_constructs(chk, env, names)
-    run_pairs(chk, env, names if thorough else names[:120], 2 if thorough else 1)
+    run_pairs(chk, env, names if thorough else names[:100], 2 if thorough else 1)
     chk.extra["names"] = len(names)
+
+
+def replay(path):
+    """re-run the program of a replay file and show the resulting names"""
+    import json
+    d = json.load(open(path))
+    print(json.dumps({k: d.get(k) for k in ("key", "input", "observed", "expected")}, indent=1, ensure_ascii=False)[:3000])
+    inp = d.get("input", {})
+    if "program" not in inp:
+        return 1
+    hy = vlib.use_repo_in_process()
+    import hy.compiler  # noqa
+    env = Env(hy)
+    mod, tree, err, msg = env.run(inp["program"])
+    print("error:", err, msg)
+    print("globals:", new_globals(mod), "log:", mod.zq_log[:20], "zq_r:", mod.__dict__.get("zq_r", "<unbound>"))
+    return 1
